@@ -58,19 +58,27 @@ func checkFraming(p m.Packet, d harness.Dialect) error {
 		return fmt.Errorf("%s: header length field %d, output is %d octets (= %d words minus one)\nbytes: %s\nvalue: %s", p.Kind, h.Length, len(out), len(out)/4-1, hexs(out), conv.JSON(p))
 	}
 	wantPT, wantCount, fixedCount := m.PTFMT(p.Kind, d.Ref())
+	elements := -1 // for the types whose count field counts list elements
 	switch p.Kind {
 	case m.KRAW:
 		wantPT, wantCount, fixedCount = p.RAW[1], p.RAW[0]&0x1f, true
 	case m.KSR:
-		wantCount, fixedCount = uint8(len(p.SR.Reports)), true
+		elements = len(p.SR.Reports)
 	case m.KRR:
-		wantCount, fixedCount = uint8(len(p.RR.Reports)), true
+		elements = len(p.RR.Reports)
 	case m.KSDES:
-		wantCount, fixedCount = uint8(len(p.SDES.Chunks)), true
+		elements = len(p.SDES.Chunks)
 	case m.KBYE:
-		wantCount, fixedCount = uint8(len(p.BYE.Sources)), true
+		elements = len(p.BYE.Sources)
 	case m.KAPP:
 		wantCount, fixedCount = p.APP.Subtype, true
+	}
+	if elements >= 0 {
+		// compared as integers: a count kept in 8 bits agrees with itself modulo 256
+		if int(h.Count) != elements {
+			return fmt.Errorf("%s: Marshal succeeded for %d elements and the header's count field says %d", p.Kind, elements, h.Count)
+		}
+		wantCount, fixedCount = h.Count, true
 	}
 	if h.PT != wantPT {
 		return fmt.Errorf("%s: packet type %d, registered %d", p.Kind, h.PT, wantPT)
@@ -184,6 +192,25 @@ func c05ListAtEdge(p m.Packet) bool {
 func TestC05(t *testing.T) {
 	defer harness.Uncaught(t)
 	if harness.Cfg.Shard == 0 {
+		// whenever Marshal succeeds - also for lists longer than the count field can say (Marshal
+		// should refuse them, C08; if it does not, the header it emits is judged here)
+		for _, n := range []int{32, 255, 256, 257, 287, 512} {
+			srcs := make([]uint32, n)
+			chunks := make([]m.SDESChunk, n)
+			for i := range srcs {
+				srcs[i] = uint32(i + 1)
+				chunks[i] = m.SDESChunk{Source: uint32(i + 1), Items: []m.SDESItem{{Type: 1, Text: []byte("c")}}}
+			}
+			for _, p := range []m.Packet{
+				{Kind: m.KSR, SR: &m.SR{SSRC: 1, Reports: make([]m.RBlock, n)}},
+				{Kind: m.KRR, RR: &m.RR{SSRC: 1, Reports: make([]m.RBlock, n)}},
+				{Kind: m.KSDES, SDES: &m.SDES{Chunks: chunks}},
+				{Kind: m.KBYE, BYE: &m.BYE{Sources: srcs}},
+			} {
+				subC05.Check(t, valCase{P: p})
+				harness.Eval(subC05.Name+"/over-long-list", 1)
+			}
+		}
 		// "a packet whose encoding fits the 16-bit length field": the values that fill it, and the
 		// longest lists (sizes and lengths kept in too few bits show here and nowhere below)
 		for _, p := range append(c02MaxSizeValues(), c10MaximalLists()...) {
